@@ -118,6 +118,15 @@ class World:
             # K parallel links from vs[i] to vs[j] at once (crosses size thresholds of per-vertex indexes)
             K = [7, 8, 9, 12, 33][k % 5]
             return ("bulk", i % nv, j % nv, (k // 5) % 6, K)
+        if name == "bulk_big":
+            # the same beyond the sizes at which per-vertex fast paths / thresholds are usually placed
+            K = [63, 64, 65, 70, 128, 130][k % 6]
+            return ("bulk", i % nv, j % nv, (k // 6) % 6, K)
+        if name == "bulk_av":
+            # ONE link lists one vertex very many times (Link.add_vertex called K times)
+            if not nl:
+                return None
+            return ("bulk_av", i % nl, j % nv, [40, 600][k % 2])
         if name == "bulk_u":
             # K fresh vertices join universe u at once (crosses size thresholds of membership indexes)
             if not self.uidx:
@@ -141,6 +150,9 @@ class World:
             if nv >= 6:
                 return None
             return ("newu2", list(dict.fromkeys(x % nv for x in (i, j, k)))[: 1 + k % 3])
+        if name == "queryn":
+            # the first n (1..48) of a fixed list of distinct neighbors() questions, asked of ONE vertex
+            return ("queryn", i % nv, 1 + k % 48)
         if name in ("flag", "query", "repickle", "dumponly"):
             return (name, k)
         raise ValueError(f"unknown op {name}")
@@ -200,6 +212,10 @@ class World:
             _, a, b, ci, K = r
             for _ in range(K):
                 self.ls.append(C.LINK_CLASSES[ci](self.vs[a], self.vs[b]))
+            return None
+        if name == "bulk_av":
+            for _ in range(r[3]):
+                self.ls[r[1]].add_vertex(self.vs[r[2]])
             return None
         if name == "bulk_u":
             from edgegraph.structure import Vertex as _V
